@@ -60,6 +60,18 @@ def fail(ctx: Ctx, site, case, detail):
         ctx.count("failures_not_listed:" + site)
 
 
+def prune(ctx: Ctx):
+    """failures re-labelled after the fact (variants / callseq / noncontiguous) escape the per-site cap of `fail`: re-apply it"""
+    seen, keep = {}, []
+    for f in ctx.failures:
+        seen[f["site"]] = seen.get(f["site"], 0) + 1
+        if seen[f["site"]] <= MAXFAIL:
+            keep.append(f)
+        else:
+            ctx.count("failures_not_listed:" + f["site"])
+    ctx.failures[:] = keep
+
+
 def oclose(a, b):
     return ks.close(a, b, ORTOL)
 
@@ -299,6 +311,10 @@ def run_e2e(ctx: Ctx, cases, n_model):
             m, db, span, out, info = ks.run_e2e(c)
         except Exception as e:
             fail(ctx, "e2e-raises", {"stream": "e2e", "case": c}, repr(e)[:300]); continue
+        full = c
+        c = ks.effective(c)           # a span that is not a consecutive run = its contiguous hull with the other periods unobserved
+        if full.get("sel") is not None:
+            ctx.count("e2e:noncontiguous_span=" + ("Span(step)" if isinstance(ks.prepare_e2e(full, m)[2], tuple) is False else "tuple"))
         mc, data = c["mc"], c["data"]
         ctx.count(f"e2e:nx={len(mc['logx'])}"); ctx.count(f"e2e:ny={len(mc['logy'])}"); ctx.count(f"e2e:T={data['nper']}")
         ctx.count(f"e2e:deviation={c['deviation']}"); ctx.count(f"e2e:rescale={c['rescale']}")
@@ -310,7 +326,11 @@ def run_e2e(ctx: Ctx, cases, n_model):
         if i < 2:
             ctx.sample({"stream": "e2e", "source": ks.model_source(mc), "mask": data["mask"], "deviation": c["deviation"],
                         "rescale": c["rescale"], "neg_log_likelihood": info["neg_log_likelihood"]})
+        before = len(ctx.failures)
         oracle_e2e(ctx, c, m, span, out, info)
+        if full.get("sel") is not None:
+            for f in ctx.failures[before:]:
+                f["case"] = {"stream": "e2e", "case": full}; f["site"] = f["site"].replace("e2e-", "noncontiguous-span-")
         if i < n_model:
             lc, maps = ks.lean_case_of_e2e(c, m)
             lines.append("kfr" + ks.encode(lc)[2:]); keep.append((c, lc, maps, span, out, info))
@@ -377,6 +397,53 @@ def run_variants(ctx: Ctx, cases):
                 f["case"] = {"stream": "variants", "case": c}; f["site"] = f["site"].replace("e2e-", "variants-")
 
 
+def run_callseq(ctx: Ctx, cases):
+    """sequences of calls on ONE solved model object (filter / neg_log_likelihood / simulate; deviation and level mode, rescaling,
+    full, sub- and non-consecutive spans drawn independently per call): every filter call is judged against the batch oracle of
+    ITS options, whatever was called before"""
+    import irispie as ir
+    for c in cases:
+        ctx.evaluations += 1
+        mc = c["mc"]
+        cw = {"stream": "callseq", "case": c}
+        if ks.e2e_batch({"mc": mc, "data": c["data"], "deviation": False, "rescale": False}).condS() > 1e8:
+            ctx.count("callseq:degenerate_joint_distribution_skipped"); continue
+        try:
+            m = ks.build_model(mc)
+        except Exception as e:
+            fail(ctx, "callseq-raises", cw, repr(e)[:300]); continue
+        ctx.nontriv(("callseq", json.dumps(mc, sort_keys=True), json.dumps(c["calls"])))
+        ctx.count("callseq:" + ">".join(("dev" if k["deviation"] else "lvl") + "-" + k["kind"] for k in c["calls"]))
+        for k, call in enumerate(c["calls"]):
+            sub = ks.callseq_subcase(c, call)
+            before = len(ctx.failures)
+            try:
+                if call["kind"] == "simulate":
+                    start, span = ks.e2e_span(c["data"]["nper"])
+                    sdb = ir.Databox.steady(m, span, deviation=call["deviation"])
+                    m.simulate(sdb, span, method="first_order", deviation=call["deviation"])
+                    continue
+                B = ks.e2e_batch(sub)
+                if B.condS() > 1e8 or len(B.Y) == 0:
+                    continue
+                if call["kind"] == "filter":
+                    _, db, span, out, info = ks.run_e2e(sub, m=m)
+                    oracle_e2e(ctx, ks.effective(sub), m, span, out, info)
+                else:
+                    _, db, fspan, span, kw = ks.prepare_e2e(sub, m)
+                    nll = m.neg_log_likelihood(db, fspan, **kw)
+                    N = len(B.Y)
+                    vs = B.quad() / N if call["rescale"] else 1.0
+                    if vs > 1e-12 and not oclose([nll], [B.nll(N, scale=vs)]):
+                        fail(ctx, "callseq-likelihood", cw, f"call {k} {call}: neg_log_likelihood()={nll!r} joint Gaussian={B.nll(N, scale=vs)!r}")
+            except Exception as e:
+                fail(ctx, "callseq-raises", cw, f"call {k} {call}: {e!r}"[:300])
+            for f in ctx.failures[before:]:
+                if f["case"].get("stream") == "e2e":
+                    f["case"] = cw; f["site"] = f["site"].replace("e2e-", "callseq-")
+                    f["detail"] = f"call {k} {call} after {[(x['kind'], x['deviation']) for x in c['calls'][:k]]}: " + f["detail"]
+
+
 def run_config(ctx: Ctx, cases):
     """which output steps are requested / stored must not change any reported number: the likelihood of a call that stores nothing
     (`neg_log_likelihood`), the smoother alone, the update step without the smoother"""
@@ -437,6 +504,8 @@ def run_payload(ctx: Ctx, payload, with_model=True):
         run_e2e(ctx, [inner], 1 if with_model else 0)
     elif stream == "config":
         run_config(ctx, [inner])
+    elif stream == "callseq" or (isinstance(inner, dict) and "calls" in inner):
+        run_callseq(ctx, [inner])
     elif stream == "variants" or (isinstance(inner, dict) and "mcs" in inner):
         run_variants(ctx, [inner])
     elif isinstance(inner, dict) and "mc" in inner:
@@ -449,7 +518,10 @@ def run(ctx: Ctx):
                 "random missing masks, plus every mask of one system per (ny,T) with ny*T <= 6 (quick) / 10 (thorough); unknown-init stream: "
                 "same with one unit root and Xi; e2e: random linear Simultaneous models (1-3 variables, lags <=2, log-variables, 1-3 "
                 "observables) with simulated data, masks incl. forecast tails, time-varying stds from data, deviation and rescale_variance "
-                "flags; the same with one random-walk (unit-root) variable under fixed_unknown (GLS oracle); config: every case re-run "
+                "flags; filter spans that are not consecutive runs (ir.Span with a step, hand-picked tuples) with observations in the in-between "
+                "periods; sequences of 3-5 calls on one model object (filter / neg_log_likelihood / simulate, deviation and level, "
+                "rescaling, full / sub / non-consecutive spans), each filter call against the oracle of its own options; "
+                "the same with one random-walk (unit-root) variable under fixed_unknown (GLS oracle); config: every case re-run "
                 "through neg_log_likelihood and with single output steps. "
                 "distinct_nontrivial = distinct (sizes, mask, flags) cases with T>1 and at least one observation (direct) / distinct "
                 "(model, mask, flags) (e2e)")
@@ -474,6 +546,12 @@ def run(ctx: Ctx):
     run_config(ctx, cases[:ctx.n(4, 25)] + ucases[:ctx.n(6, 40)])
     rng = ctx.rng.fork("variants")
     run_variants(ctx, [ks.gen_variant_case(rng.fork(i)) for i in range(ctx.n(8, 100))])
+    rng = ctx.rng.fork("noncontiguous")
+    ncases = [ks.gen_e2e_case(rng.fork(i), 9 if ctx.quick else 12, noncontiguous=True) for i in range(ctx.n(14, 200))]
+    run_e2e(ctx, ncases, ctx.n(3, 20))
+    rng = ctx.rng.fork("callseq")
+    run_callseq(ctx, [ks.gen_callseq_case(rng.fork(i)) for i in range(ctx.n(14, 200))])
+    prune(ctx)
 
 
 def search(ctx: Ctx, seeds):
@@ -491,7 +569,11 @@ def search(ctx: Ctx, seeds):
     ucases = [ks.gen_e2e_case(rng.fork(("u", i).__repr__()), 10, unit_root=True) for i in range(100)]
     run_e2e(ctx, ucases, 0)
     run_config(ctx, cases[:10] + ucases[:20])
+    run_variants(ctx, [ks.gen_variant_case(rng.fork(("v", i).__repr__())) for i in range(40)])
+    run_e2e(ctx, [ks.gen_e2e_case(rng.fork(("n", i).__repr__()), 10, noncontiguous=True) for i in range(100)], 0)
+    run_callseq(ctx, [ks.gen_callseq_case(rng.fork(("c", i).__repr__())) for i in range(100)])
 
 
 def replay(ctx: Ctx, payload):
     run_payload(ctx, payload)
+    prune(ctx)
